@@ -215,5 +215,3 @@ func printObls(obls []*Obligation, verbose bool) {
 		fmt.Printf("%-10s %-60s %-8s %6.2fs  %s\n", tag, o.Name, o.Solver, o.Secs, o.Src)
 	}
 }
-
-func (fx *FuncExec) modelTerms() []*Term { return nil }
